@@ -16,26 +16,56 @@ import (
 var c06Faults = []string{"transport", "transport-eof", "transport-reset", "status500", "errors1", "short", "notjson", "datanull"}
 
 // mutationExpect returns field name -> number of client root selections.
+// c06Vars are the variables of the case being judged (for the @skip / @include of root selections)
+var c06Vars map[string]interface{}
+
+// mutationExpect: how often each mutation root field has to be executed - once per response key under which it is
+// selected (selections of one key are one field) and which at least one of its selections leaves in the operation.
 func mutationExpect(op *ast.OperationDefinition) map[string]int {
-	out := map[string]int{}
-	var walk func(ss ast.SelectionSet)
-	walk = func(ss ast.SelectionSet) {
+	included := func(ds ast.DirectiveList) bool {
+		for _, d := range ds {
+			if d.Name != "skip" && d.Name != "include" {
+				continue
+			}
+			a := d.Arguments.ForName("if")
+			if a == nil || a.Value == nil {
+				continue
+			}
+			v, _ := a.Value.Value(c06Vars)
+			b, _ := v.(bool)
+			if (d.Name == "skip" && b) || (d.Name == "include" && !b) {
+				return false
+			}
+		}
+		return true
+	}
+	keys := map[string]string{} // response key -> field name, for the keys that stay
+	var walk func(ss ast.SelectionSet, in bool)
+	walk = func(ss ast.SelectionSet, in bool) {
 		for _, s := range ss {
 			switch x := s.(type) {
 			case *ast.Field:
-				if !strings.HasPrefix(x.Name, "__") {
-					out[x.Name]++
+				if !strings.HasPrefix(x.Name, "__") && in && included(x.Directives) {
+					k := x.Alias
+					if k == "" {
+						k = x.Name
+					}
+					keys[k] = x.Name
 				}
 			case *ast.InlineFragment:
-				walk(x.SelectionSet)
+				walk(x.SelectionSet, in && included(x.Directives))
 			case *ast.FragmentSpread:
 				if x.Definition != nil {
-					walk(x.Definition.SelectionSet)
+					walk(x.Definition.SelectionSet, in && included(x.Directives))
 				}
 			}
 		}
 	}
-	walk(op.SelectionSet)
+	walk(op.SelectionSet, true)
+	out := map[string]int{}
+	for _, name := range keys {
+		out[name]++
+	}
 	return out
 }
 
@@ -95,6 +125,9 @@ func c06Check(f *Fed, op *ast.OperationDefinition, mult int, faulted bool) []str
 		if owner, ok := f.W.owner["Mutation."+name]; ok {
 			if c := f.Fakes.Cnt[owner][name]; c > want {
 				set["mutation executed more often than requested"] = true
+			} else if c < want && g >= want && !faulted {
+				// it arrived - under a condition of the gateway's making that took it out again
+				set["mutation root field delivered to its owner in a form that is not executed"] = true
 			}
 		}
 	}
@@ -150,7 +183,7 @@ func init() {
 		ID:    "C06",
 		Level: "fault_enumeration",
 		Rule: "case = (world with mutation roots on 1-3 services, downstream batch size m in {1,2,3000}, planner plain/cached, every mutation operation with <=K fields incl. the same field twice under aliases) " +
-			"x delivery mode {single, twice on a warm plan cache, batch of two} x fault plan {none, each fault kind on each downstream HTTP call of the execution}; plus start-up through the real introspector with one service (each position) failing its introspection " +
+			"x delivery mode {single, twice on a warm plan cache, batch of two, selected by operationName out of a document that begins with a query (alone and as a batch of two)} x fault plan {none, each fault kind on each downstream HTTP call of the execution}; plus start-up through the real introspector with one service (each position) failing its introspection " +
 			"(a gateway that starts anyway is held to the same oracle); oracle on the services' request logs and execution counters; non-trivial = reached a service",
 		Assumptions: []string{"the in-memory services' logs are the observation; faults are answered after the request was logged (the service did receive it)"},
 		Jobs:        c06Jobs,
@@ -231,6 +264,7 @@ func init() {
 					continue
 				}
 				op := doc.Operations[0]
+				c06Vars = c.Vars
 				if c.OpName != "" {
 					rp.OpName = c.OpName
 				}
@@ -264,6 +298,26 @@ func init() {
 				bb, _ := json.Marshal([]json.RawMessage{body, body})
 				f.Post(bb, "application/json")
 				fail("batch2", c06Check(f, op, 2, false))
+				// the mutation selected by operationName out of a document that begins with a query, alone and as a batch of two
+				if q := strings.TrimSpace(c.Q); strings.HasPrefix(q, "mutation") && len(doc.Operations) == 1 {
+					c2 := c
+					c2.OpName = op.Name
+					if op.Name == "" {
+						c2.OpName = "VerifSel"
+						q = strings.Replace(q, "mutation", "mutation VerifSel", 1)
+					}
+					c2.Q = "query VerifLead { __typename } " + q
+					if d2, _ := f.load(c2.Q); d2 != nil {
+						body2 := caseBody(c2)
+						f.Fakes.Reset()
+						f.Post(body2, "application/json")
+						fail("selected-by-name", c06Check(f, op, 1, false))
+						f.Fakes.Reset()
+						bb2, _ := json.Marshal([]json.RawMessage{body2, body2})
+						f.Post(bb2, "application/json")
+						fail("selected-by-name-batch2", c06Check(f, op, 2, false))
+					}
+				}
 				// every single fault on every downstream call
 				for call := 0; call < ncalls; call++ {
 					for _, kind := range c06Faults {
